@@ -36,6 +36,10 @@ def build(scratch, variants):
     """Build the worker binary (and optional variants) from the current /repo tree."""
     src = os.path.join(scratch, "sim")
     shutil.copytree(os.path.join(VERIF, "sim"), src)
+    if REPO != "/repo":
+        # background soak runs work on a snapshot of the repository (VERIF_REPO); registered checks use /repo itself
+        gm = open(os.path.join(src, "go.mod")).read().replace("=> /repo", "=> " + REPO)
+        open(os.path.join(src, "go.mod"), "w").write(gm)
     bins = {}
     for v in variants:
         out = os.path.join(scratch, "sim-%s.test" % v)
@@ -70,7 +74,7 @@ def instrumented_copy(scratch, simsrc):
     log("[instr] " + p.stdout.strip().splitlines()[-1])
     sim2 = os.path.join(scratch, "sim-instr")
     shutil.copytree(simsrc, sim2)
-    gm = open(os.path.join(sim2, "go.mod")).read().replace("=> /repo", "=> " + repo2)
+    gm = open(os.path.join(sim2, "go.mod")).read().replace("=> " + REPO, "=> " + repo2)
     open(os.path.join(sim2, "go.mod"), "w").write(gm)
     return sim2
 
